@@ -126,6 +126,9 @@ def finish(rep, replay_filter=None):
     if os.environ.get('NIX_NO_EVIDENCE'):
         # analysing a scratch copy (checker validation): never touch the real evidence
         evdir = os.path.join(rep.prog.repo, '_evidence')
+        if os.path.realpath(rep.prog.repo) == '/repo':
+            # (the hash seed sweep analyses /repo itself: nothing is written into the repository)
+            evdir = os.path.join(VERIF, '.cache', '_evidence_scratch')
     os.makedirs(evdir, exist_ok=True)
     rng = random.Random(rep.seed)
     all_inst = [i for r in rep.rules for i in r.instances]
